@@ -1152,6 +1152,8 @@ def _judge_dot(model):
             [("c18", ("c17", "c01"))] + [(f"c{i:02d}", (f"c{i-1:02d}",))
                                          for i in range(17, 1, -1)]
             + [("c01", ())],
+        "ids that are not plain identifiers":
+            [("s 1", ()), ("s-2", ("s 1",)), ("s.3", ("s-2", "s 1"))],
         "no dependencies at all": [("a", ()), ("b", ())],
         "one edge": [("a", ()), ("b", ("a",))],
         "a chain of 6 listed in a mixed order":
@@ -1177,8 +1179,29 @@ def _judge_dot(model):
         if not isinstance(res, str):
             raise AnalysisError("get_dot_dependency_graph: the result is not "
                                 "text the judge can read")
-        got = set(re.findall(r'^\s*"?([\w-]+)"?\s*->\s*"?([\w-]+)"?',
-                             res, re.M))
+        got = set()
+        declared = set()
+        for ln in res.splitlines():
+            m_e = re.match(r'^\s*("?)([^"\[\]>]+?)\1\s*->\s*("?)([^"\[\];]+?)\3'
+                           r'\s*(?:\[.*\])?;?\s*$', ln)
+            if m_e:
+                got.add((m_e.group(2).strip(), m_e.group(4).strip()))
+                for q_, id_ in ((m_e.group(1), m_e.group(2)),
+                                (m_e.group(3), m_e.group(4))):
+                    if not q_ and not re.fullmatch(r"[A-Za-z_]\w*", id_.strip()):
+                        wit.append(f"{label}: the edge line '{ln.strip()}' "
+                                   f"spells the id {id_.strip()!r} without "
+                                   "quotes: not one dot identifier")
+                continue
+            m_n = re.match(r'^\s*("?)([^"\[\]>]+?)\1\s*\[', ln)
+            if m_n:
+                declared.add((m_n.group(1), m_n.group(2).strip()))
+        # every edge endpoint is spelled the way a declared node is
+        for e_ in sorted(got):
+            for id_ in e_:
+                if declared and id_ not in {i for _, i in declared}:
+                    wit.append(f"{label}: the edge {e_} names {id_!r}, which "
+                               "no node line declares")
         want = reduction({(i, d) for i, ds in spec for d in ds})
         if got != want:
             extra, missing = sorted(got - want), sorted(want - got)
@@ -1336,6 +1359,23 @@ def _streams_consumed_once(ctx, model):
 
 
 def _dot_ids_quoted_alike(ctx, model):
+    try:
+        return _dot_ids_quoted_alike_structural(ctx, model)
+    except AnalysisError:
+        # the lines are built in a way the textual rule does not read: the
+        # judge has drawn a graph whose ids need quoting and read the text
+        if any(o.key == "P0/closure/transitive-reduction" and o.ok
+               for o in ctx.obs):
+            ctx.ob("T/dot/edge-ids-spelled-like-node-ids", True,
+                   "pymbolic/imperative/utils.py",
+                   "[shape not recognised] decided by reading the text the "
+                   "interpreted export writes for ids that need quoting",
+                   nontrivial=False)
+            return
+        raise
+
+
+def _dot_ids_quoted_alike_structural(ctx, model):
     """A node is declared as "<id>" [...]; dot reads a quoted and an unquoted
     spelling as the same id only for plain identifiers.  The edge lines must
     spell the ids the way the node lines do, or the edges of a statement whose
